@@ -1,11 +1,13 @@
 // System-call recorder for the Process-object cases of C20.  This translation unit DEFINES close,
-// pipe, fcntl, waitpid, kill, read, write and select, so the Process code compiled into the harness
+// pipe, fcntl, waitpid, kill, read, write, select and poll, so the Process code compiled into the harness
 // executable calls these instead of libc's (they forward with dlsym(RTLD_NEXT, ..), i.e. to the
 // sanitizer's interceptor where there is one, then to libc).  While recording is on (vk_enter ..
 // vk_leave, and only in the process that switched it on - a vfork child shares the memory but has
 // its own pid) every call is appended to a log in a canonical form:
 //     pipe:<a>:<b> pipefail dup:<d> dupfail close:<x> vfork vforkfail kill wait:ok:<status> wait:fail
 //     select read:<x> write:<x>
+// (`select` stands for "asked the kernel which of its descriptors is readable": select() or poll(), logged once per
+// recorded call however often the Process code repeats it.)
 // Descriptors are named f1, f2, .. in the order of their first appearance in the case (0 stays 0);
 // a name is forgotten when the descriptor is closed, so a number the kernel hands out again gets a
 // new name.  The recorder keeps the set of descriptors handed out by pipe()/F_DUPFD and not closed
@@ -25,6 +27,7 @@
 #include <sys/types.h>
 #include <sys/wait.h>
 #include <sys/select.h>
+#include <poll.h>
 #include "args_kernel.h"
 
 typedef int (*close_fn)(int);
@@ -35,6 +38,7 @@ typedef int (*kill_fn)(pid_t, int);
 typedef ssize_t (*read_fn)(int, void*, size_t);
 typedef ssize_t (*write_fn)(int, const void*, size_t);
 typedef int (*select_fn)(int, fd_set*, fd_set*, fd_set*, struct timeval*);
+typedef int (*poll_fn)(struct pollfd*, nfds_t, int);
 
 static close_fn real_close;
 static pipe_fn real_pipe;
@@ -44,6 +48,7 @@ static kill_fn real_kill;
 static read_fn real_read;
 static write_fn real_write;
 static select_fn real_select;
+static poll_fn real_poll;
 
 #define RESOLVE(var, type, name) do { if(!var) { var = (type)dlsym(RTLD_NEXT, name); if(!var) { abort(); } } } while(0)
 
@@ -191,9 +196,55 @@ extern "C" ssize_t write(int fd, const void* buf, size_t n)
   return real_write(fd, buf, n);
 }
 
+// ---- virtual silence (see args_kernel.h) ----------------------------------------------------
+static volatile long pause_ms = 0;
+static pid_t pause_owner = 0;
+static long zero_calls = 0, timeouts_given = 0;
+static int spun = 0;
+extern "C" void vk_pause(long ms) { pause_ms = ms; pause_owner = getpid(); zero_calls = 0; timeouts_given = 0; spun = 0; }
+extern "C" int vk_spun(void) { return spun; }
+extern "C" long vk_timeouts(void) { return timeouts_given; }
+
+// asked: the time-out of the call in ms (-1: none).  1: answer "timed out" now; 0: let the kernel answer; -1: spin noted
+static int silence(long asked)
+{
+  if(pause_ms <= 0 || getpid() != pause_owner) return 0;
+  if(asked < 0 || asked >= pause_ms) { pause_ms = 0; return 0; }     // the wait outlasts the silence
+  pause_ms -= asked;
+  ++timeouts_given;
+  if(asked == 0) { if(++zero_calls >= VK_SPIN_LIMIT) { spun = 1; pause_ms = 0; return -1; } }
+  else zero_calls = 0;
+  return 1;
+}
+
 extern "C" int select(int nfds, fd_set* r, fd_set* w, fd_set* x, struct timeval* tv)
 {
   RESOLVE(real_select, select_fn, "select");
   if(rec() && !select_logged) { select_logged = 1; put("select"); }
+  int s = silence(tv ? (long)tv->tv_sec * 1000 + (long)tv->tv_usec / 1000 : -1);
+  if(s) {
+    // Linux: on a time-out the three sets come back empty and the timeval says how much time is left (none)
+    size_t bytes = ((size_t)(nfds > 0 ? nfds : 0) + 7) / 8;
+    if(bytes > sizeof(fd_set)) bytes = sizeof(fd_set);
+    if(r) memset(r, 0, bytes);
+    if(w) memset(w, 0, bytes);
+    if(x) memset(x, 0, bytes);
+    if(tv) { tv->tv_sec = 0; tv->tv_usec = 0; }
+    if(s < 0) { errno = EBADF; return -1; }
+    return 0;
+  }
   return real_select(nfds, r, w, x, tv);
+}
+
+extern "C" int poll(struct pollfd* fds, nfds_t n, int timeout)
+{
+  RESOLVE(real_poll, poll_fn, "poll");
+  if(rec() && !select_logged) { select_logged = 1; put("select"); }
+  int s = silence(timeout < 0 ? -1 : (long)timeout);
+  if(s) {
+    for(nfds_t i = 0; i < n; ++i) fds[i].revents = 0;
+    if(s < 0) { errno = EBADF; return -1; }
+    return 0;
+  }
+  return real_poll(fds, n, timeout);
 }
